@@ -143,6 +143,26 @@ ADDENDA7 = {
  "C20": " Also (round 7): a shortened re-slice x[:k] handed to a function that appends onto that parameter (interprocedural, through φs, re-slices and helper calls) is a write to x's elements.",
 }
 
+# rounds 8-9 and the natural negative corpora (DESIGN §22-§25)
+ADDENDA8 = {
+ "C01": " Also (rounds 8-9): K7 the message the decoder is building is never handed to another function before it is returned (late rewriting of decoded fields, e.g. Option Overload applied by a method, is reported). String fields are recognised semantically: string(src[:i]) with i the index of the first zero octet of the same source, through helpers and builtin min.",
+ "C02": " Also (round 8): the label-list encoder is the concatenation of the per-name encoder over one scan of its argument and returns that accumulator (no compression pointers in DHCPv6; shared C19-K2).",
+ "C03": " Also (rounds 8-9): the cursor-jump rules of the label decoder (typestate flag, saved position ahead, accumulator cap; C09-K1) are evaluated under C03 for every loop of its closure with an instance floor; ledger assumptions for the netboot type assertions became machine-checked facts (rejects_present: the relay decoder still rejects non-relay types; key_pattern entries are keyed by function, not by spelling). The analyser's own abnormal termination is reported as a violation (check.sh fails closed).",
+ "C04": " Also (round 9): K9 the packet FromBytes is building is never a call argument before it is returned; K10 no-retention (C08-K1) of the input by dhcpv4.FromBytes is evaluated under C04. 'End seen' is a provenance fact (a flag true only on paths through the code==255 edge), not a name.",
+ "C05": " Also (round 9): K12 the message a top-level DHCPv6 decoder builds is never a call argument; K13 no-retention of the input by the three top-level DHCPv6 decoders.",
+ "C06": " Also (round 8): K8 the stored option value is append(previous value, consumed chunk) with one store per instance (shared C01-K4): a first instance kept as a view of the packet would be overwritten by later fragments.",
+ "C10": " Also (round 9): K2 the delivering select has exactly two cases (send to the entry's channel, receive on the entry's done); K8 close census.",
+ "C11": " Also (round 9): K10 on the way of a call (SendAndRead, try, send, retry driver and their synchronous callees in the package) the only waiting operation is the wait select — no other channel operation, timer wait, sleep, WaitGroup/Cond wait.",
+ "C12": " Also (round 8): K1 with the deadline-sentinel edge removed, the try is not reachable from itself — only the try's own deadline leads to another try (a Timeout()-based retry of context errors or a second doubling is reported).",
+ "C14": " Also (rounds 8-9): K5 the rewritten broadcast peer is allocated on the serve loop's cycle (fresh per datagram), judged also inside an unexported helper; K9 no waiting operation (channel send/receive, blocking select, WaitGroup/Cond wait, sleep) on the serve loop's cycle in Serve or in what it calls synchronously there.",
+ "C16": " Also (round 9): preconditions that apply only under a condition are part of a builder's recipe (`requires not(a && b)`, conjuncts sorted); a builder's error results carry their provenance (which callee's error, passed through or re-created).",
+ "C17": " Also (round 9): K11 every return of an accessor or its helper that is reachable without the absent edge or the decode-error edge yields a value derived from the decode target (no value-dependent suppression). Accessor helpers are any function that looks up one option whose code is one of its parameters.",
+ "C18": " Also: K3 the UDP port filter is decided as a truth table over its atoms (no port filter, source matches, destination matches …): the extracted predicate equals N or ((A or B) and C) on all 16 rows, however it is spelled.",
+ "C19": " Also (round 8): K2 the per-name encoder is judged by role (one length octet per label equal to that label's length, then the label bytes, a terminating zero) in copy style or append style; the list encoder is one scan concatenating it; slices.Equal is the exact comparison of K1.",
+ "C15": " Also (rounds 8-9): E6 treats a function that only hands its arguments to another module function as that call (delegation), drops zero stores into fresh objects, splits phi-valued stores into conditional effects and records error provenance, so equal behaviour spelled differently compares equal and a re-created error does not.",
+ "C13": " Also (rounds 8-9): same E6 normal forms as C15 (delegation, conditional effects, error provenance: an error of RequestFromOffer/SendAndRead that is replaced rather than passed through is reported).",
+}
+
 NA_REASON = {}
 
 def main():
@@ -153,7 +173,7 @@ def main():
         pid = p["id"]
         if pid in CLAIMED:
             tech, text, note, ref = CLAIMED[pid]
-            text = text + ADDENDA.get(pid, "") + ADDENDA7.get(pid, "")
+            text = text + ADDENDA.get(pid, "") + ADDENDA7.get(pid, "") + ADDENDA8.get(pid, "")
             checks.append({
                 "property_id": pid,
                 "quick_cmd": f"./check.sh {pid} quick",
